@@ -22,7 +22,10 @@ import (
 	"errors"
 	"flag"
 	"fmt"
+	"os"
 	"reflect"
+	"sort"
+	"strconv"
 	"strings"
 	"time"
 
@@ -44,13 +47,31 @@ const (
 	kObj
 )
 
+// leaf kinds: how a leaf value z crosses the result coercion of its scalar / enum type
+const (
+	lInt = iota
+	lString
+	lFloat
+	lID
+	lEnum
+	lCustom
+	nLeafKinds
+)
+
 type typ struct {
-	nn     bool
-	kind   int
-	item   *typ     // kList
-	fields []*ftype // kObj
-	gql    graphql.Type
+	nn      bool
+	kind    int
+	leaf    int      // kLeaf: lInt ...
+	abs     int      // kObj: 0 object type, 1 behind an interface, 2 behind a union
+	item    *typ     // kList
+	fields  []*ftype // kObj
+	gql     graphql.Type
+	objName string // kObj: name of the concrete object type (set when the schema is built)
 }
+
+type zval int // the Go value a custom scalar's resolver returns
+
+type badObj struct{} // a value no IsTypeOf accepts
 
 type ftype struct {
 	key, name string
@@ -75,7 +96,8 @@ type val struct {
 
 type fval struct {
 	ft   *ftype
-	tag  int // -1: synchronous
+	tag  int  // -1: synchronous
+	pre  bool // asynchronous, and the resolver sends the result before it returns the channel
 	err  bool
 	v    *val
 	path []interface{}
@@ -86,12 +108,31 @@ func (v *val) goValue() interface{} {
 	case vNull:
 		return nil
 	case vLeaf:
-		return v.z
+		switch v.t.leaf {
+		case lString:
+			return strconv.Itoa(v.z)
+		case lFloat:
+			return float64(v.z)
+		case lCustom:
+			return zval(v.z)
+		}
+		return v.z // Int, ID (serialised as a string), enum (value z is named E<z>)
 	case vBad:
 		if v.t.kind == kList {
 			return 7 // not a slice
 		}
-		return "bad" // not an Int
+		if v.t.kind == kObj {
+			return badObj{} // abstract type: no member type accepts it
+		}
+		switch v.t.leaf {
+		case lString:
+			return 7
+		case lID:
+			return struct{}{}
+		case lEnum:
+			return -1
+		}
+		return "bad" // not an Int / Float / custom scalar value
 	case vList:
 		out := make([]interface{}, len(v.items))
 		for i, it := range v.items {
@@ -211,6 +252,41 @@ type builder struct {
 	n      int
 	events *[]sexp.Node
 	reg    *registry
+	extra  []graphql.NamedType // object types reachable only through an interface
+}
+
+var enumType = func() *graphql.EnumType {
+	e := &graphql.EnumType{Name: "E", Values: map[string]*graphql.EnumValueDefinition{}}
+	for i := 0; i < 100; i++ {
+		e.Values["E"+strconv.Itoa(i)] = &graphql.EnumValueDefinition{Value: i}
+	}
+	return e
+}()
+
+var customType = &graphql.ScalarType{
+	Name: "Z",
+	ResultCoercion: func(v interface{}) interface{} {
+		if z, ok := v.(zval); ok {
+			return int(z)
+		}
+		return nil
+	},
+}
+
+func leafType(kind int) graphql.Type {
+	switch kind {
+	case lString:
+		return graphql.StringType
+	case lFloat:
+		return graphql.FloatType
+	case lID:
+		return graphql.IDType
+	case lEnum:
+		return enumType
+	case lCustom:
+		return customType
+	}
+	return graphql.IntType
 }
 
 type promise struct {
@@ -223,6 +299,14 @@ type registry struct {
 	proms []*promise
 }
 
+func (p *promise) send() {
+	if p.fv.err {
+		p.ch <- graphql.ResolveResult{Error: errors.New("promise failed")}
+	} else {
+		p.ch <- graphql.ResolveResult{Value: p.fv.v.goValue()}
+	}
+}
+
 func (b *builder) gqlType(t *typ) graphql.Type {
 	if t.gql != nil {
 		return t.gql
@@ -230,11 +314,32 @@ func (b *builder) gqlType(t *typ) graphql.Type {
 	var g graphql.Type
 	switch t.kind {
 	case kLeaf:
-		g = graphql.IntType
+		g = leafType(t.leaf)
 	case kList:
 		g = graphql.NewListType(b.gqlType(t.item))
 	case kObj:
-		g = b.objType(fmt.Sprintf("T%d", b.n), t)
+		name := fmt.Sprintf("T%d", b.n)
+		o := b.objType(name, t)
+		isT := func(v interface{}) bool { x, ok := v.(*val); return ok && x.t == t }
+		never := func(interface{}) bool { return false }
+		switch t.abs {
+		case 0:
+			g = o
+		case 1:
+			iface := &graphql.InterfaceType{Name: "I" + name, Fields: o.Fields}
+			decoy := &graphql.ObjectType{Name: "D" + name, Fields: o.Fields, IsTypeOf: never,
+				ImplementedInterfaces: []*graphql.InterfaceType{iface}}
+			o.ImplementedInterfaces = []*graphql.InterfaceType{iface}
+			o.IsTypeOf = isT
+			b.extra = append(b.extra, decoy, o)
+			g = iface
+		default:
+			decoy := &graphql.ObjectType{Name: "D" + name, IsTypeOf: never, Fields: map[string]*graphql.FieldDefinition{
+				"z": {Type: graphql.IntType, Resolve: func(graphql.FieldContext) (interface{}, error) { return 0, nil }},
+			}}
+			o.IsTypeOf = isT
+			g = &graphql.UnionType{Name: "U" + name, MemberTypes: []*graphql.ObjectType{decoy, o}}
+		}
 	}
 	if t.nn {
 		g = graphql.NewNonNullType(g)
@@ -245,6 +350,7 @@ func (b *builder) gqlType(t *typ) graphql.Type {
 
 func (b *builder) objType(name string, t *typ) *graphql.ObjectType {
 	b.n++
+	t.objName = name
 	o := &graphql.ObjectType{Name: name, Fields: map[string]*graphql.FieldDefinition{}}
 	for i, ft := range t.fields {
 		i := i
@@ -256,6 +362,11 @@ func (b *builder) objType(name string, t *typ) *graphql.ObjectType {
 				if fv.tag >= 0 {
 					p := &promise{fv: fv, ch: make(graphql.ResolvePromise, 1)}
 					b.reg.proms = append(b.reg.proms, p)
+					if fv.pre {
+						p.done = true
+						*b.events = append(*b.events, sexp.T("fulfil", pathSexp(fv.path)))
+						p.send()
+					}
 					return p.ch, nil
 				}
 				if fv.err {
@@ -268,25 +379,165 @@ func (b *builder) objType(name string, t *typ) *graphql.ObjectType {
 	return o
 }
 
-func queryText(t *typ, sb *strings.Builder) {
+// qgen writes the query text of a type skeleton.  With r == nil the text is the plain one (every
+// selection set spelled out once); otherwise the same grouped field sets are reached through inline
+// fragments with and without type condition, named fragments, @include / @skip that keep a
+// selection (constant or through a variable), fields that @skip / @include remove, and fields
+// whose sub-selection is split over two occurrences that collectFields has to merge.  Abstract
+// types are always selected through a type condition (a union must be; an interface may be).
+type qgen struct {
+	r     *rng.R
+	frags []string
+	nv    int
+	useT  bool
+	useF  bool
+	feats map[string]bool
+}
+
+func (q *qgen) chance(n, d int) bool { return q.r != nil && q.r.Chance(n, d) }
+
+func (q *qgen) keep() string {
+	if !q.chance(1, 5) {
+		return ""
+	}
+	q.feats["directives"] = true
+	switch q.r.Intn(4) {
+	case 0:
+		return " @include(if: true)"
+	case 1:
+		return " @skip(if: false)"
+	case 2:
+		q.useT = true
+		return " @include(if: $t)"
+	}
+	q.useF = true
+	return " @skip(if: $f)"
+}
+
+func (q *qgen) drop() string {
+	switch q.r.Intn(4) {
+	case 0:
+		return " @skip(if: true)"
+	case 1:
+		return " @include(if: false)"
+	case 2:
+		q.useT = true
+		return " @skip(if: $t)"
+	}
+	q.useF = true
+	return " @include(if: $f)"
+}
+
+func innermost(t *typ) *typ {
 	for t.kind == kList {
 		t = t.item
 	}
+	return t
+}
+
+func (q *qgen) sub(t *typ) string {
+	t = innermost(t)
 	if t.kind != kObj {
-		return
+		return ""
 	}
-	sb.WriteString("{")
-	for i, ft := range t.fields {
-		if i > 0 {
-			sb.WriteString(" ")
-		}
-		if ft.key != ft.name {
-			sb.WriteString(ft.key + ":")
-		}
-		sb.WriteString(ft.name)
-		queryText(ft.t, sb)
+	return "{" + q.body(t, t.fields) + "}"
+}
+
+func (q *qgen) fieldText(ft *ftype, dir, sub string) string {
+	s := ft.name
+	if ft.key != ft.name {
+		s = ft.key + ":" + ft.name
 	}
-	sb.WriteString("}")
+	return s + dir + sub
+}
+
+func (q *qgen) body(t *typ, fields []*ftype) string {
+	var parts, tail []string
+	for _, ft := range fields {
+		in := innermost(ft.t)
+		if in.kind == kObj && len(in.fields) >= 2 && q.chance(1, 6) {
+			k := 1 + q.r.Intn(len(in.fields)-1)
+			parts = append(parts, q.fieldText(ft, q.keep(), "{"+q.body(in, in.fields[:k])+"}"))
+			tail = append(tail, q.fieldText(ft, q.keep(), "{"+q.body(in, in.fields[k:])+"}"))
+			q.feats["merged-fields"] = true
+		} else {
+			parts = append(parts, q.fieldText(ft, q.keep(), q.sub(ft.t)))
+		}
+		if q.chance(1, 8) {
+			v := fields[q.r.Intn(len(fields))]
+			plain := &qgen{feats: map[string]bool{}}
+			parts = append(parts, fmt.Sprintf("van%d:%s%s%s", q.nv, v.name, q.drop(), plain.sub(v.t)))
+			q.nv++
+			q.feats["removed-field"] = true
+		}
+	}
+	parts = append(parts, tail...)
+	if len(parts) >= 1 && q.chance(1, 4) {
+		i := q.r.Intn(len(parts))
+		j := i + 1 + q.r.Intn(len(parts)-i)
+		inner := strings.Join(parts[i:j], " ")
+		var w string
+		switch q.r.Intn(3) {
+		case 0:
+			w = "..." + q.keep() + " {" + inner + "}"
+		case 1:
+			w = "... on " + t.objName + q.keep() + " {" + inner + "}"
+		default:
+			name := fmt.Sprintf("F%d", len(q.frags))
+			q.frags = append(q.frags, "fragment "+name+" on "+t.objName+" {"+inner+"}")
+			w = "..." + name + q.keep()
+		}
+		parts = append(append(append([]string{}, parts[:i]...), w), parts[j:]...)
+		q.feats["fragments"] = true
+	}
+	s := strings.Join(parts, " ")
+	if t.abs == 2 || (t.abs == 1 && (q.r == nil || q.r.Bool())) {
+		s = "... on " + t.objName + " {" + s + "}"
+	}
+	return s
+}
+
+// document returns the whole request text and its variable values.
+func (q *qgen) document(root *typ, mutation bool) (string, map[string]interface{}) {
+	body := "{" + q.body(root, root.fields) + "}"
+	head := ""
+	var decl []string
+	vars := map[string]interface{}{}
+	if q.useT {
+		decl = append(decl, "$t: Boolean!")
+		vars["t"] = true
+	}
+	if q.useF {
+		decl = append(decl, "$f: Boolean!")
+		vars["f"] = false
+	}
+	if mutation {
+		head = "mutation"
+	} else if len(decl) > 0 {
+		head = "query"
+	}
+	if len(decl) > 0 {
+		head += "(" + strings.Join(decl, ", ") + ")"
+	}
+	return head + body + " " + strings.Join(q.frags, " "), vars
+}
+
+func typeFeats(t *typ, feats map[string]bool) {
+	switch t.kind {
+	case kLeaf:
+		if t.leaf != lInt {
+			feats["scalar-kinds"] = true
+		}
+	case kList:
+		typeFeats(t.item, feats)
+	case kObj:
+		if t.abs != 0 {
+			feats["abstract-type"] = true
+		}
+		for _, ft := range t.fields {
+			typeFeats(ft.t, feats)
+		}
+	}
 }
 
 // ---------------------------------------------------------------------------------------------
@@ -295,39 +546,50 @@ func queryText(t *typ, sb *strings.Builder) {
 
 type stuck struct{}
 
+var npanics int
+
 type observation struct {
 	status string
 	resp   *graphql.Response
 	rounds int
 	proms  int
 	events []sexp.Node
+	feats  []string
 }
 
-func run(root *val, mutation bool, ranks []int) observation {
+// run executes the plan; r (may be nil) decides the spelling of the document.
+func run(root *val, mutation bool, ranks []int, r *rng.R) observation {
 	var events []sexp.Node
 	reg := &registry{}
 	b := &builder{events: &events, reg: reg}
 	rootT := *root.t // fresh gql cache per run
 	resetGql(&rootT)
-	def := &graphql.SchemaDefinition{}
+	def := &graphql.SchemaDefinition{Directives: map[string]*graphql.DirectiveDefinition{
+		"include": graphql.IncludeDirective, "skip": graphql.SkipDirective,
+	}}
 	dummy := &graphql.ObjectType{Name: "Q0", Fields: map[string]*graphql.FieldDefinition{
 		"z": {Type: graphql.IntType, Resolve: func(graphql.FieldContext) (interface{}, error) { return 0, nil }},
 	}}
-	var sb strings.Builder
 	if mutation {
 		def.Query = dummy
 		def.Mutation = b.objType("Mutation", &rootT)
-		sb.WriteString("mutation")
 	} else {
 		def.Query = b.objType("Query", &rootT)
 	}
-	queryText(&rootT, &sb)
+	def.AdditionalTypes = b.extra
+	q := &qgen{r: r, feats: map[string]bool{}}
+	text, vars := q.document(&rootT, mutation)
+	typeFeats(&rootT, q.feats)
 	schema, err := graphql.NewSchema(def)
 	if err != nil {
-		panic(fmt.Sprintf("schema: %v (%s)", err, sb.String()))
+		panic(fmt.Sprintf("schema: %v (%s)", err, text))
 	}
 
 	obs := observation{}
+	for f := range q.feats {
+		obs.feats = append(obs.feats, f)
+	}
+	sort.Strings(obs.feats)
 	limit := 4
 	root.walk(func(fv *fval) { limit += 2 })
 	idle := func() {
@@ -349,11 +611,7 @@ func run(root *val, mutation bool, ranks []int) observation {
 			if !p.done && ranks[p.fv.tag] == min {
 				p.done = true
 				events = append(events, sexp.T("fulfil", pathSexp(p.fv.path)))
-				if p.fv.err {
-					p.ch <- graphql.ResolveResult{Error: errors.New("promise failed")}
-				} else {
-					p.ch <- graphql.ResolveResult{Value: p.fv.v.goValue()}
-				}
+				p.send()
 			}
 		}
 	}
@@ -369,17 +627,26 @@ func run(root *val, mutation bool, ranks []int) observation {
 				if _, ok := e.(stuck); ok {
 					done <- outT{status: "stuck"}
 				} else {
+					if npanics < 5 {
+						npanics++
+						fmt.Fprintln(os.Stderr, "c02: panic during Execute:", e)
+					}
 					done <- outT{status: "panic"}
 				}
 			}
 		}()
 		r := graphql.Execute(&graphql.Request{
-			Context:      context.Background(),
-			Schema:       schema,
-			Query:        sb.String(),
-			InitialValue: root,
-			IdleHandler:  idle,
+			Context:        context.Background(),
+			Schema:         schema,
+			Query:          text,
+			VariableValues: vars,
+			InitialValue:   root,
+			IdleHandler:    idle,
 		})
+		if r.Data == nil && len(r.Errors) > 0 && r.Errors[0].Path == nil {
+			// parse / validation error: the harness generated a bad document
+			panic(fmt.Sprintf("document rejected: %v (%s)", r.Errors[0].Message, text))
+		}
 		done <- outT{status: "ok", resp: r}
 	}()
 	select {
@@ -395,6 +662,7 @@ func run(root *val, mutation bool, ranks []int) observation {
 
 func resetGql(t *typ) {
 	t.gql = nil
+	t.objName = ""
 	if t.item != nil {
 		resetGql(t.item)
 	}
@@ -423,6 +691,18 @@ func dataSexp(v interface{}) sexp.Node {
 			items = append(items, dataSexp(it))
 		}
 		return sexp.T("list", items...)
+	}
+	switch x := v.(type) {
+	case string: // String and ID carry z in decimal, an enum value is named E<z>
+		if n, err := strconv.Atoi(strings.TrimPrefix(x, "E")); err == nil {
+			return sexp.T("int", sexp.Int(n))
+		}
+		return sexp.T("int", sexp.Int(-1)) // no leaf value is negative: reported as differing data
+	case float64:
+		if float64(int(x)) == x {
+			return sexp.T("int", sexp.Int(int(x)))
+		}
+		return sexp.T("int", sexp.Int(-1))
 	}
 	rv := reflect.ValueOf(v)
 	switch rv.Kind() {
@@ -461,15 +741,55 @@ func (o observation) sexp() sexp.Node {
 	return sexp.T("obs", out...)
 }
 
+// emit writes one enumerated case.  Half of them are left exactly as enumerated (Int leaves, plain
+// object types, plain document, every promise fulfilled by the idle handler); the other half gets,
+// from the case's own random stream, other leaf kinds, abstract types, a decorated document and
+// some promises that are already fulfilled when the resolver returns.
 func emit(h *hx.H, root *val, mutation bool, ranks []int) {
-	h.Case(func(_ *rng.R) sexp.Node {
-		return caseSexp(root, mutation, ranks)
+	h.Case(func(r *rng.R) sexp.Node {
+		if r.Chance(1, 2) {
+			decorateTypes(root.t, nil, true)
+			setPrefill(root, nil)
+			return caseSexp(root, mutation, ranks, nil)
+		}
+		decorateTypes(root.t, r, true)
+		setPrefill(root, r)
+		return caseSexp(root, mutation, ranks, r)
 	})
 }
 
-func caseSexp(root *val, mutation bool, ranks []int) sexp.Node {
+// decorateTypes chooses leaf kinds and abstract wrappers (all plain when r == nil).
+func decorateTypes(t *typ, r *rng.R, isRoot bool) {
+	switch t.kind {
+	case kLeaf:
+		t.leaf = lInt
+		if r != nil && r.Chance(1, 2) {
+			t.leaf = r.Intn(nLeafKinds)
+		}
+	case kList:
+		decorateTypes(t.item, r, false)
+	case kObj:
+		t.abs = 0
+		if r != nil && !isRoot && r.Chance(1, 3) {
+			t.abs = 1 + r.Intn(2)
+		}
+		for _, ft := range t.fields {
+			decorateTypes(ft.t, r, false)
+		}
+	}
+}
+
+// setPrefill marks some asynchronous field invocations as fulfilled at creation (none when r == nil).
+func setPrefill(root *val, r *rng.R) {
+	some := r != nil && r.Chance(1, 3)
+	root.walk(func(fv *fval) {
+		fv.pre = some && fv.tag >= 0 && r.Chance(1, 3)
+	})
+}
+
+func caseSexp(root *val, mutation bool, ranks []int, r *rng.R) sexp.Node {
 	root.setPaths(nil)
-	o := run(root, mutation, ranks)
+	o := run(root, mutation, ranks, r)
 	mode := "query"
 	if mutation {
 		mode = "mutation"
@@ -478,16 +798,26 @@ func caseSexp(root *val, mutation bool, ranks []int) sexp.Node {
 	for _, r := range ranks {
 		rk = append(rk, sexp.Int(r))
 	}
+	pre := make([]sexp.Node, len(ranks))
+	root.walk(func(fv *fval) {
+		if fv.tag >= 0 {
+			pre[fv.tag] = sexp.Bool(fv.pre)
+		}
+	})
+	var feats []sexp.Node
+	for _, f := range o.feats {
+		feats = append(feats, sexp.Sym(f))
+	}
 	return sexp.T("case", sexp.T("mode", sexp.Sym(mode)), sexp.T("plan", sexp.L(root.selSexp()...)),
-		sexp.T("ranks", sexp.L(rk...)), o.sexp())
+		sexp.T("ranks", sexp.L(rk...)), sexp.T("pre", sexp.L(pre...)), sexp.T("feat", feats...), o.sexp())
 }
 
 // ---------------------------------------------------------------------------------------------
 // generators
 // ---------------------------------------------------------------------------------------------
 
-func leafT(nn bool) *typ            { return &typ{nn: nn, kind: kLeaf} }
-func listT(nn bool, it *typ) *typ   { return &typ{nn: nn, kind: kList, item: it} }
+func leafT(nn bool) *typ             { return &typ{nn: nn, kind: kLeaf} }
+func listT(nn bool, it *typ) *typ    { return &typ{nn: nn, kind: kList, item: it} }
 func objT(nn bool, f ...*ftype) *typ { return &typ{nn: nn, kind: kObj, fields: f} }
 func fld(key string, t *typ) *ftype  { return &ftype{key: key, name: key, t: t} }
 
@@ -629,7 +959,7 @@ type tmpl struct {
 	code []int              // codes each hole ranges over
 }
 
-func obj(t *typ, fs ...*fval) *val { return &val{kind: vObj, t: t, fields: fs} }
+func obj(t *typ, fs ...*fval) *val   { return &val{kind: vObj, t: t, fields: fs} }
 func lst(t *typ, items ...*val) *val { return &val{kind: vList, t: t, items: items} }
 func fv(ft *ftype, v *val) *fval     { return &fval{ft: ft, v: v} }
 func fe(ft *ftype) *fval             { return &fval{ft: ft, err: true} }
@@ -771,7 +1101,7 @@ func (g *gen) val(t *typ) *val {
 	case 0:
 		return &val{kind: vNull, t: t}
 	case 1:
-		if t.kind != kObj {
+		if t.kind != kObj || t.abs != 0 {
 			return &val{kind: vBad, t: t}
 		}
 	}
@@ -809,6 +1139,9 @@ func randomRoot(r *rng.R, nroots, depth, budget int) *val {
 		fs = append(fs, &ftype{key: key, name: name, t: g.typ(depth, false)})
 	}
 	rt := objT(false, fs...)
+	if r.Chance(2, 3) {
+		decorateTypes(rt, r, true)
+	}
 	root := &val{kind: vObj, t: rt}
 	for _, ft := range fs {
 		if r.Intn(12) == 0 {
@@ -843,7 +1176,11 @@ func randomCase(r *rng.R, mutation bool, nroots int) sexp.Node {
 			}
 		}
 	}
-	return caseSexp(root, mutation, ranks)
+	setPrefill(root, r)
+	if r.Chance(1, 3) {
+		return caseSexp(root, mutation, ranks, nil)
+	}
+	return caseSexp(root, mutation, ranks, r)
 }
 
 // ---------------------------------------------------------------------------------------------
